@@ -166,7 +166,7 @@ func (r *Run) execute() int {
 	} else {
 		defer os.RemoveAll(dir)
 	}
-	dis := &Discharger{w: w, dir: dir, timeout: r.timeout, sem: make(chan struct{}, 5)}
+	dis := &Discharger{w: w, dir: dir, timeout: r.timeout, sem: make(chan struct{}, 24)}
 	var wg sync.WaitGroup
 	for _, u := range r.units {
 		for _, o := range u.Obls {
